@@ -10,7 +10,7 @@ use crate::with_d;
 use num::Signed;
 use std::time::Instant;
 
-pub const RULE: &str = "cases = accepted connected graphs (both sub-classes: all omega>=0.15 and omega down to 1/64), every xi_j = 2^(-omega(g_j)) so that the logged unrescaled parameters are 1, 1/2, 1/4, ... and the j-th removed edge can be read off the log; every edge-choice coordinate u_j drawn from a boundary-heavy class list (interior of a chosen edge's interval, +-3 ulp around a cumulative boundary, 0, 2^-53, 1-2^-53, 1-2^-52, subnormal, uniform). oracle at EVERY step of the walk (following the sampler's own path): exact rational cumulative sums C_k of J(g\\e)/(J(g) omega(g\\e)) from the reference J; expected edge = first k with C_k >= u, neighbours accepted if |u-C_k| <= 64 E eps, u above the last C_k => last edge; the single remaining edge is removed without a coordinate; any panic is a violation. non-trivial = some u within 4 ulp of a cumulative boundary or of 1, or a subgraph with >=3 edges reached after >=1 removal; distinct = distinct case encodings";
+pub const RULE: &str = "cases = accepted connected graphs (both sub-classes: all omega>=0.15 and omega down to 1/64), every xi_j = 2^(-omega(g_j)) so that the logged unrescaled parameters are 1, 1/2, 1/4, ... and the j-th removed edge can be read off the log; every edge-choice coordinate u_j drawn from a boundary-heavy class list (interior of a chosen edge's interval, +-3 ulp around a cumulative boundary, 0, 2^-53, 1-2^-53, 1-2^-52, subnormal, uniform). oracle at EVERY step of the walk (following the sampler's own path): exact rational cumulative sums C_k of J(g\\e)/(J(g) omega(g\\e)) from the reference J; expected edge = first k with C_k >= u, neighbours accepted if |u-C_k| <= 64 E eps, u above the last C_k => last edge; the single remaining edge is removed without a coordinate; any panic is a violation. exact route: the sampler is run with an exact rational user scalar (+ - * / and comparisons exact, transcendental functions through f64) on small graphs, one edge-choice coordinate being the exact rational boundary C_k itself (tie: edge k must be removed) or C_k(1 +- 2^-e), 60 <= e <= 400, boundaries formed exactly from the f64 constants of the sampler's own table; decided without tolerance, the removed edges are read off the L matrix. non-trivial = some u within 4 ulp of a cumulative boundary or of 1, or a subgraph with >=3 edges reached after >=1 removal; distinct = distinct case encodings";
 
 pub fn gen_case(t: &mut Tape, tier: Tier) -> Option<Phys> {
     let mo = if t.bool() { 1.0 / 64.0 } else { 0.15 };
@@ -169,16 +169,206 @@ pub fn check(c: &Phys, ctx: &mut Ctx) -> Result<(), Failure> {
     phys::validate_opt(c, true)?;
     with_d!(c.g.d, check_d(c, ctx))
 }
+
+// ------------------------------------------------------------------ exact route (rational user scalar)
+/// The edge selection decided *without tolerance*: the sampler is run with the exact rational user scalar `Rq`, one
+/// edge-choice coordinate is the exact rational cumulative boundary C_k itself (a tie: the running sum *reaches* u at
+/// edge k, so edge k must go), or C_k (1 +- 2^-e) with e up to 400. The boundaries are formed in exact arithmetic from
+/// the f64 constants of the sampler's own table, which is all the selection may use; in exact arithmetic every
+/// order of evaluating J(g\e)/(J(g) omega(g\e)) and of accumulating the running sum gives the same number.
+#[derive(Clone, Debug, serde::Serialize, serde::Deserialize)]
+pub struct XCase {
+    pub p: Phys,
+    pub step: usize,
+    pub bidx: usize,
+    /// 0 = tie, 1 = just above the boundary, 2 = just below
+    pub mode: u8,
+    /// relative distance 2^-epow for modes 1 and 2
+    pub epow: u32,
+}
+pub fn gen_xcase(t: &mut Tape, tier: Tier) -> Option<XCase> {
+    let g = gen::gen_phys_graph(t, tier.pick(6, 7), 3, 0.15, 4)?;
+    if g.nedges() < 2 {
+        return None;
+    }
+    let kin = gen::gen_kin_unit(t, &g, 1);
+    let prof = gen::PointProfile { u_w: [0.6, 0.4, 0.0, 0.0], xi_w: [0.0, 0.0, 1.0, 0.0], lambda_tail: 0.0, bm_extreme: 0.0 };
+    let (x, classes) = gen::gen_point(t, &g, &prof);
+    let step = t.below(g.nedges() - 1);
+    let bidx = t.below(8);
+    let mode = t.weighted(&[0.5, 0.25, 0.25]) as u8;
+    let epow = t.range(60, 400) as u32;
+    Some(XCase { p: Phys { g, kin, x, classes: classes.into_iter().map(String::from).collect() }, step, bidx, mode, epow })
+}
+fn xcheck_d<const D: usize>(c: &XCase, ctx: &mut Ctx) -> Result<(), Failure> {
+    use crate::oracle::graph::Q;
+    use crate::scalars::rq::Rq;
+    use momtrop::vector::Vector;
+    use num::{One, Zero};
+    let p = &c.p;
+    let g = &p.g;
+    let (ne, nl) = (g.nedges(), g.num_loops());
+    let s = match sut::build::<D>(g, p.kin.sig.clone()) {
+        Ok(s) => s,
+        Err(_) => {
+            ctx.label("skip:not-built");
+            return Ok(());
+        }
+    };
+    let tab = sut::table_of(&s).map_err(|e| Failure::new("table-unreadable", e))?;
+    let omega: Vec<f64> = tab.entries.iter().map(|e| e.omega).collect();
+    let jt: Vec<f64> = tab.entries.iter().map(|e| e.j).collect();
+    if omega[..omega.len() - 1].iter().chain(jt.iter()).any(|v| !(v.is_finite() && *v > 0.0)) {
+        ctx.label("exact:skip-table-not-positive");
+        return Ok(());
+    }
+    let target_step = c.step % (ne - 1);
+    let mut xr: Vec<Rq> = p.x.iter().map(|&v| Rq::f(v)).collect();
+    let mut sub = g.full();
+    let mut order = vec![];
+    let mut info = None;
+    for step in 0..ne {
+        if (sub as u64).count_ones() == 1 {
+            order.push(sub.trailing_zeros() as usize);
+            break;
+        }
+        let cp = path::cum_exact(ne, sub, &omega, &jt);
+        let uq: Q = if step == target_step {
+            let k = c.bidx % (cp.len() - 1);
+            let cq = cp[k].1.clone();
+            let eps = Q::one() / num::pow(Q::from_integer(2.into()), c.epow as usize);
+            let u = match c.mode {
+                0 => cq.clone(),
+                1 => &cq * (Q::one() + eps),
+                _ => &cq * (Q::one() - eps),
+            };
+            if !(u >= Q::zero() && u < Q::one()) {
+                ctx.label("exact:skip-boundary-not-in-[0,1)");
+                return Ok(());
+            }
+            xr[2 * step] = Rq(u.clone());
+            info = Some((k, qf(&cq)));
+            u
+        } else {
+            q(p.x[2 * step])
+        };
+        let e = cp.iter().find(|(_, cq)| *cq >= uq).map(|(e, _)| *e).unwrap_or(cp.last().unwrap().0);
+        order.push(e);
+        sub ^= 1 << e;
+    }
+    let Some((k, ck)) = info else {
+        ctx.label("exact:skip-step-not-reached");
+        return Ok(());
+    };
+    // f64 sector formula along the exact walk
+    let mut kappa = 1.0f64;
+    let mut x0 = vec![1.0f64; ne];
+    let (mut ut, mut vt) = (1.0f64, 1.0f64);
+    let mut sub = g.full();
+    let mut sens = 0.0f64;
+    for (step, &e) in order.iter().enumerate() {
+        x0[e] = kappa;
+        let nxt = sub ^ (1 << e);
+        if tab.entries[sub].spanning && !tab.entries[nxt].spanning {
+            vt = x0[e];
+        }
+        if tab.entries[nxt].loops < tab.entries[sub].loops {
+            ut *= x0[e];
+        }
+        sub = nxt;
+        if sub != 0 {
+            let xi = p.x[2 * step + 1];
+            kappa *= xi.powf(1.0 / omega[sub]);
+            sens += xi.ln().abs() / omega[sub];
+        }
+    }
+    let dh = D as f64 / 2.0;
+    let xit = ut * vt;
+    let target = ut.powf(-dh) * (ut / xit).powf(tab.dod);
+    let scaling = target.powf(1.0 / (dh * nl as f64 + tab.dod));
+    let xs: Vec<f64> = x0.iter().map(|x| x * scaling).collect();
+    if !xs.iter().all(|x| x.is_finite() && *x > 1e-100 && *x < 1e100) || sens > 200.0 {
+        ctx.label("exact:skip-magnitude");
+        return Ok(());
+    }
+    let amp = 1.0 + sens + target.ln().abs();
+    let ed: Vec<(Option<Rq>, Vector<Rq, D>)> = (0..ne).map(|e| (if g.massive[e] { Some(Rq::f(p.kin.masses[e])) } else { None }, Vector::from_array(std::array::from_fn(|i| Rq::f(p.kin.shifts[e][i]))))).collect();
+    let st = sut::settings(None, false, true);
+    let r = match std::panic::catch_unwind(std::panic::AssertUnwindSafe(|| s.generate_sample_from_x_space_point(&xr, ed, &st, &sut::NoLog))) {
+        Ok(Ok(r)) => r,
+        Ok(Err(_)) => {
+            ctx.label("exact:skip-sample-error");
+            return Ok(());
+        }
+        Err(_) => {
+            let m = engine::take_panic();
+            if m.contains("rq-") {
+                ctx.label("exact:skip-scalar-domain");
+                return Ok(());
+            }
+            let sig = if m.contains("could not sample edge") { "edge-selection-panic" } else { "sample-panic" };
+            fail!(sig, "sampling with the exact rational scalar panicked: {m}; case {c:?}");
+        }
+    };
+    let Some(md) = r.metadata.as_ref() else { fail!("no-metadata", "no metadata") };
+    let what = match c.mode {
+        0 => "exactly on".to_string(),
+        1 => format!("a relative 2^-{} above", c.epow),
+        _ => format!("a relative 2^-{} below", c.epow),
+    };
+    for i in 0..nl {
+        for j in 0..nl {
+            let (mut want, mut absum) = (0.0f64, 0.0f64);
+            for e in 0..ne {
+                let cf = (p.kin.sig[e][i] * p.kin.sig[e][j]) as f64;
+                want += xs[e] * cf;
+                absum += (xs[e] * cf).abs();
+            }
+            let got = qf(&md.l_matrix[(i, j)].0);
+            let t_ = 1e-9 * amp * absum;
+            if !((got - want).abs() <= t_) {
+                fail!("exact-edge-choice", "exact rational run with edge-choice coordinate {} {what} the exact cumulative boundary C_{k} = {ck:e} of step {target_step}: the running sum reaches u at the edges of the walk {order:?}, but L[{i}][{j}] = {got:e} instead of {want:e} (another edge was removed); case {c:?}", 2 * target_step);
+            }
+        }
+    }
+    ctx.label(match c.mode { 0 => "exact:tie", 1 => "exact:just-above", _ => "exact:just-below" });
+    ctx.count("exact_selection_cases", 1);
+    if ne >= 3 {
+        ctx.nontrivial();
+    }
+    Ok(())
+}
+pub fn check_x(c: &XCase, ctx: &mut Ctx) -> Result<(), Failure> {
+    phys::validate(&c.p)?;
+    if c.p.g.nedges() < 2 || c.mode > 2 || !(8..=1000).contains(&c.epow) {
+        fail!("bad-case", "exact route needs >= 2 edges, mode 0..2, 8 <= epow <= 1000");
+    }
+    with_d!(c.p.g.d, xcheck_d(c, ctx))
+}
+#[derive(Clone, Debug, serde::Serialize, serde::Deserialize)]
+#[serde(untagged)]
+pub enum Any {
+    Exact(XCase),
+    Walk(Phys),
+}
+pub fn check_any(c: &Any, ctx: &mut Ctx) -> Result<(), Failure> {
+    match c {
+        Any::Exact(x) => check_x(x, ctx),
+        Any::Walk(p) => check(p, ctx),
+    }
+}
 pub fn run(tier: Tier, seed: u64) -> i32 {
     let t0 = Instant::now();
     let sp = Spec { id: "C06", rule: RULE, tape_len: 280, cases: tier.pick(150_000, 1_500_000), gen: gen_case, check, max_shrink_iters: 3000, shards: 16 };
     let mut stats = engine::run_spec(&sp, tier, seed);
-    engine::run_regressions::<Phys>("C06", check, &mut stats);
+    let spx = Spec { id: "C06", rule: RULE, tape_len: 240, cases: tier.pick(12_000, 200_000), gen: gen_xcase, check: check_x, max_shrink_iters: 800, shards: 16 };
+    stats.merge(engine::run_spec(&spx, tier, seed ^ 0x0606));
+    engine::run_regressions::<Any>("C06", check_any, &mut stats);
     let extra = super::fuzzrun::maybe_fuzz("C06", "edge_select", tier, seed, &mut stats, serde_json::json!({}));
     engine::finish("C06", tier, seed, RULE, stats, t0, extra, &["removal order observed through the crate's debug log (unrescaled parameters 2^-k)", "reference J by own recursion; exact rational cumulative sums", "64*E*eps neighbourhood of a boundary accepts both neighbours"])
 }
 pub fn replay(path: &str) -> i32 {
-    engine::replay_file::<Phys>("C06", path, check)
+    engine::replay_file::<Any>("C06", path, check_any)
 }
 // keep ONE_M referenced for documentation purposes
 #[allow(unused)]
